@@ -134,6 +134,13 @@ def run(chk):
         chk.tool_error("c10 sampled failed", out)
     vlib.validate_concat(chk, SPEC, "TraceDsdAgg", tcfg, tr6, "sampled histogram cycles", KNOWN)
     total += s6["runs"]
+    # look-up / increment / drop usage (no handle kept) with idle gaps against back-to-back flushes
+    tr7 = chk.path("lookup.ndjson")
+    rc, out, s7 = vlib.harness("c10", ["lookup", "--runs", 20 if thorough else 6, "--out", tr7], env=env, timeout=900)
+    if rc != 0 or not s7:
+        chk.tool_error("c10 lookup failed", out)
+    vlib.validate_concat(chk, SPEC, "TraceDsdAgg", tcfg, tr7, "look-up/increment/drop threads vs back-to-back flushes", KNOWN)
+    total += s7["runs"]
     # the forwarder's reconnect / drop state machine (specs/DsdForward): real exporter thread, unix datagram and stream
     # sockets, an agent that goes away and comes back while the forwarder is idle
     r = vlib.tlc_mc("DsdForward", "DsdForward", "MC.cfg", workers=4, timeout=600, tag="fwd")
